@@ -1,5 +1,6 @@
 import Hoot.Driver.Replay
 import Hoot.Oracle.All
+import Hoot.Driver.XRun
 
 /-! hootmodel: the line-protocol driver.
     hootmodel replay [nohack] [full] < trace   — replays the op lines through the model, prints the model's trace -/
@@ -9,7 +10,7 @@ partial def replayLoop (h out : IO.FS.Stream) (s : Sess) : IO Unit := do
   if line.isEmpty then return ()
   let l := (line.dropEndWhile (· == '\n')).toString
   if l.isEmpty then replayLoop h out s else
-  let (s', o) := stepLine s l
+  let (s', o) := stepLineX s l
   out.putStrLn o
   replayLoop h out s'
 
